@@ -53,10 +53,17 @@ theorem rowOk_of_inv (g : Yuv) (hi : InvYuv g) (yy : Nat) (hyy : yy < g.y.cfg.he
   · rw [← index_eq]; exact covers_index _ hi.cu _ _ (by rw [hi.uw]; exact hcx) (by rw [hi.uh]; exact hcy)
   · rw [← index_eq]; exact covers_index _ hi.cv _ _ (by rw [hi.vw]; exact hcx) (by rw [hi.vh]; exact hcy)
 
+/-- the allocation size `width * height` of an accepted luma plane does not wrap -/
+theorem area_fits (p : Plane) (hc : p.covers = true) : p.cfg.width * p.cfg.height ≤ USIZE_MAX := by
+  unfold Plane.covers at hc
+  simp only [Bool.and_eq_true, decide_eq_true_eq] at hc
+  exact hc.1
+
 theorem origin_le (p : Plane) (hc : p.covers = true) : ¬ p.origin > p.data.size := by
   unfold Plane.covers at hc
   unfold Plane.origin Plane.index
-  simp only [decide_eq_true_eq] at hc
+  simp only [Bool.and_eq_true, decide_eq_true_eq] at hc
+  replace hc := hc.2
   have : (0 + p.cfg.yorigin) * p.cfg.stride ≤ (p.cfg.yorigin + (if p.cfg.width = 0 ∨ p.cfg.height = 0 then 0 else p.cfg.height - 1)) * p.cfg.stride :=
     Nat.mul_le_mul_right _ (by omega)
   omega
@@ -78,6 +85,7 @@ theorem decode_spec (g : Yuv) (hi : InvYuv g) :
   have ho : ¬ (g.y.origin > g.y.data.size ∨ g.u.origin > g.u.data.size ∨ g.v.origin > g.v.data.size) := by
     have := origin_le _ hi.cy; have := origin_le _ hi.cu; have := origin_le _ hi.cv; omega
   simp only [ho, if_false]
+  rw [Nat.mod_eq_of_lt (Nat.lt_succ_of_le (area_fits _ hi.cy))]
   obtain ⟨out, e, s, _, hnew⟩ := decRows_spec g.y g.u g.v g.y.cfg.width g.y.cfg.height g.cfg.ssx g.cfg.ssy (normPx g.cfg)
     (fun yy hyy => rowOk_of_inv g hi yy hyy) g.y.cfg.height (Array.replicate (g.y.cfg.width * g.y.cfg.height) ⟨0, 0, 0⟩) (Nat.le_refl _) (by simp)
   exact ⟨out, e, s, fun x yy hx hy => hnew x yy hx (by omega) hy⟩
